@@ -109,7 +109,11 @@ func NewSQLiteFile(ctx context.Context, reg *registry.Register, dir string) (*Ha
 
 // NewCosmosFake opens a cosmosdb vault over the package's fake client (verif hook).
 func NewCosmosFake(ctx context.Context, reg *registry.Register) (*Handle, error) {
-	cv := cosmosdb.NewVerifVault(reg)
+	return CosmosHandle(cosmosdb.NewVerifVault(reg)), nil
+}
+
+// CosmosHandle wraps a hook vault (a first one, or a later one over the same fake storage) with the raw inspectors.
+func CosmosHandle(cv *cosmosdb.VerifVault) *Handle {
 	h := &Handle{Name: "cosmos-fake", Vault: cv.Vault, Cosmos: cv, ActionsAsSet: true}
 	h.RawCount = func(ctx context.Context, id uuid.UUID) (map[string]int, error) {
 		items, err := cv.RawItems(ctx)
@@ -160,7 +164,7 @@ func NewCosmosFake(ctx context.Context, reg *registry.Register) (*Handle, error)
 		}
 		return n, nil
 	}
-	return h, nil
+	return h
 }
 
 // Model is the reference model of a vault: the documented effect of each call on canonical trees.
